@@ -2,88 +2,88 @@ Require Import OPC.Uni OPC.Names OPC.Values OPC.Enums OPC.Norm OPC.NormThm.
 From Coq Require Import NArith ZArith List Bool. Import ListNotations. Open Scope N_scope.
 
 (* 3.0 `nullable: true` on a typed schema == the 3.1 type list, at every position (top = validators run twice there) *)
-Theorem C17_nullable_forms_equal : forall c e parent top t en any one all items fmt d o name,
-  norm c e parent top (SSch (TyOne t) true en any one all items fmt d o) name
-  = norm c e parent top (SSch (TyList [t; JTNull]) false en any one all items fmt d o) name.
+Theorem C17_nullable_forms_equal : forall c e parent top t en any one all items pfx fmt d o name,
+  norm c e parent top (SSch (TyOne t) true en any one all items pfx fmt d o) name
+  = norm c e parent top (SSch (TyList [t; JTNull]) false en any one all items pfx fmt d o) name.
 Proof. exact nullable_forms_equal. Qed.
 Print Assumptions C17_nullable_forms_equal.
 
-Theorem C17_nullable_typelist_equal : forall c e parent top l en any one all items fmt d o name,
-  norm c e parent top (SSch (TyList l) true en any one all items fmt d o) name
-  = norm c e parent top (SSch (TyList (add_null l)) false en any one all items fmt d o) name.
+Theorem C17_nullable_typelist_equal : forall c e parent top l en any one all items pfx fmt d o name,
+  norm c e parent top (SSch (TyList l) true en any one all items pfx fmt d o) name
+  = norm c e parent top (SSch (TyList (add_null l)) false en any one all items pfx fmt d o) name.
 Proof. exact nullable_typelist_equal. Qed.
 Print Assumptions C17_nullable_typelist_equal.
 
 (* oneOf / anyOf + nullable == explicit null member appended (twice where the validators run twice) *)
-Theorem C17_nullable_oneof_equal : forall c e parent top en any one all items fmt d o name,
+Theorem C17_nullable_oneof_equal : forall c e parent top en any one all items pfx fmt d o name,
   one <> [] ->
-  norm c e parent top (SSch TyAbsent true en any one all items fmt d o) name
-  = norm c e parent top (SSch TyAbsent false en any (one ++ nulls top) all items fmt d o) name.
+  norm c e parent top (SSch TyAbsent true en any one all items pfx fmt d o) name
+  = norm c e parent top (SSch TyAbsent false en any (one ++ nulls top) all items pfx fmt d o) name.
 Proof. exact nullable_oneof_equal. Qed.
 Print Assumptions C17_nullable_oneof_equal.
 
-Theorem C17_nullable_anyof_equal : forall c e parent top en any all items fmt d o name,
+Theorem C17_nullable_anyof_equal : forall c e parent top en any all items pfx fmt d o name,
   any <> [] ->
-  norm c e parent top (SSch TyAbsent true en any [] all items fmt d o) name
-  = norm c e parent top (SSch TyAbsent false en (any ++ nulls top) [] all items fmt d o) name.
+  norm c e parent top (SSch TyAbsent true en any [] all items pfx fmt d o) name
+  = norm c e parent top (SSch TyAbsent false en (any ++ nulls top) [] all items pfx fmt d o) name.
 Proof. exact nullable_anyof_equal. Qed.
 Print Assumptions C17_nullable_anyof_equal.
 
-Theorem C17_nullable_allof_equal : forall c e parent top en all items fmt d o name,
+Theorem C17_nullable_allof_equal : forall c e parent top en all items pfx fmt d o name,
   all <> [] ->
-  norm c e parent top (SSch TyAbsent true en [] [] all items fmt d o) name
+  norm c e parent top (SSch TyAbsent true en [] [] all items pfx fmt d o) name
   = norm c e parent top
-      (SSch TyAbsent false en [] ([null_sch; SSch TyAbsent false [] [] [] all None None None o_none] ++ (if top then [null_sch] else []))
-            [] items fmt d o) name.
+      (SSch TyAbsent false en [] ([null_sch; SSch TyAbsent false [] [] [] all None [] None None o_none] ++ (if top then [null_sch] else []))
+            [] items pfx fmt d o) name.
 Proof. exact nullable_allof_equal. Qed.
 Print Assumptions C17_nullable_allof_equal.
 
 Theorem C17_nullable_union_top_refuted :
   exists name,
-    norm cfg0 (envl []) [] true (SSch TyAbsent true [] [] [s_str] [] None None None o_none) name
-    <> norm cfg0 (envl []) [] true (SSch TyAbsent false [] [] [s_str; null_sch] [] None None None o_none) name.
+    norm cfg0 (envl []) [] true (SSch TyAbsent true [] [] [s_str] [] None [] None None o_none) name
+    <> norm cfg0 (envl []) [] true (SSch TyAbsent false [] [] [s_str; null_sch] [] None [] None None o_none) name.
 Proof. exact nullable_union_top_refuted. Qed.
 Print Assumptions C17_nullable_union_top_refuted.
 
 (* a 3.1 type list == anyOf of the single types (same member names, same order) *)
-Theorem C17_typelist_anyof_equal : forall c e parent top l items fmt d o o' name,
+Theorem C17_typelist_anyof_equal : forall c e parent top l items pfx fmt d o o' name,
   l <> [] ->
-  norm c e parent top (SSch (TyList l) false [] [] [] [] items fmt d o) name
+  norm c e parent top (SSch (TyList l) false [] [] [] [] items pfx fmt d o) name
   = norm c e parent top
-      (SSch TyAbsent false [] (map (fun t => SSch (TyOne t) false [] [] [] [] items fmt None o) l) [] [] None None d o') name.
+      (SSch TyAbsent false [] (map (fun t => SSch (TyOne t) false [] [] [] [] items pfx fmt None o) l) [] [] None [] None d o') name.
 Proof. exact typelist_anyof_equal. Qed.
 Print Assumptions C17_typelist_anyof_equal.
 
 (* enum containing null == oneOf [ {type: null}, {enum: the rest} ]: null FIRST, enum second, names <name>_type_0 / _type_1 *)
-Theorem C17_enum_null_equal : forall c e parent top ty nl en vt vals items fmt d o o' name,
+Theorem C17_enum_null_equal : forall c e parent top ty nl en vt vals items pfx fmt d o o' name,
   g_enum_null ty nl = true ->
   enum_build en = BNullable vt vals ->
-  norm c e parent top (SSch ty nl en [] [] [] items fmt d o) name
+  norm c e parent top (SSch ty nl en [] [] [] items pfx fmt d o) name
   = norm c e parent top
-      (SSch TyAbsent false [] [] [null_sch; SSch ty nl (nonnull en) [] [] [] items fmt d o] [] None None d o') name.
+      (SSch TyAbsent false [] [] [null_sch; SSch ty nl (nonnull en) [] [] [] items pfx fmt d o] [] None [] None d o') name.
 Proof. exact enum_null_equal. Qed.
 Print Assumptions C17_enum_null_equal.
 
 Theorem C17_enum_null_typelist_refuted :
   exists ty nl en name,
     g_enum_null ty nl = false /\
-    norm cfg0 (envl []) [72] false (SSch ty nl en [] [] [] None None None o_none) name
+    norm cfg0 (envl []) [72] false (SSch ty nl en [] [] [] None [] None None o_none) name
     <> norm cfg0 (envl []) [72] false
-         (SSch TyAbsent false [] [] [null_sch; SSch ty nl (nonnull en) [] [] [] None None None o_none] [] None None None o_none) name.
+         (SSch TyAbsent false [] [] [null_sch; SSch ty nl (nonnull en) [] [] [] None [] None None o_none] [] None [] None None o_none) name.
 Proof. exact enum_null_typelist_refuted. Qed.
 Print Assumptions C17_enum_null_typelist_refuted.
 
 (* allOf | oneOf | anyOf : [$ref R] without a default == $ref R, whatever other keywords the wrapper carries *)
-Theorem C17_single_ref_wrapper : forall c e parent top k r ty nl en items fmt d o name,
+Theorem C17_single_ref_wrapper : forall c e parent top k r ty nl en items pfx fmt d o name,
   g_wrapper ty nl d = true ->
-  norm c e parent top (wrapper k r ty nl en items fmt d o) name = norm c e parent top (SRef r) name.
+  norm c e parent top (wrapper k r ty nl en items pfx fmt d o) name = norm c e parent top (SRef r) name.
 Proof. exact single_ref_wrapper. Qed.
 Print Assumptions C17_single_ref_wrapper.
 
 (* with a default: exactly the referenced class renamed, the default re-validated against it *)
-Theorem C17_wrapper_exact : forall c e parent top k r ty nl en items fmt d o name,
+Theorem C17_wrapper_exact : forall c e parent top k r ty nl en items pfx fmt d o name,
   g_wrapper ty nl None = true ->
-  norm c e parent top (wrapper k r ty nl en items fmt d o) name = ref_build e r name d.
+  norm c e parent top (wrapper k r ty nl en items pfx fmt d o) name = ref_build e r name d.
 Proof. exact wrapper_exact. Qed.
 Print Assumptions C17_wrapper_exact.
 
@@ -96,16 +96,16 @@ Theorem C17_ref_target_default_dropped : forall c e parent top r name,
   tree_default (norm c e parent top (SRef r) name) = None.
 Proof. exact ref_target_default_dropped. Qed.
 Print Assumptions C17_ref_target_default_dropped.
-Theorem C17_wrapper_target_default_dropped : forall c e parent top k r ty nl en items fmt o name,
+Theorem C17_wrapper_target_default_dropped : forall c e parent top k r ty nl en items pfx fmt o name,
   g_wrapper ty nl None = true ->
-  tree_default (norm c e parent top (wrapper k r ty nl en items fmt None o) name) = None.
+  tree_default (norm c e parent top (wrapper k r ty nl en items pfx fmt None o) name) = None.
 Proof. exact wrapper_target_default_dropped. Qed.
 Print Assumptions C17_wrapper_target_default_dropped.
 
 Theorem C17_wrapper_default_refuted :
   exists e k r d name,
     g_wrapper TyAbsent false (Some d) = false /\
-    norm cfg0 e [] false (wrapper k r TyAbsent false [] None None (Some d) o_none) name = TErr /\
+    norm cfg0 e [] false (wrapper k r TyAbsent false [] None [] None (Some d) o_none) name = TErr /\
     norm cfg0 e [] false (SRef r) name = TModel name [82].
 Proof. exact wrapper_default_refuted. Qed.
 Print Assumptions C17_wrapper_default_refuted.
@@ -113,20 +113,37 @@ Print Assumptions C17_wrapper_default_refuted.
 Theorem C17_wrapper_nullable_refuted :
   exists e r name,
     g_wrapper TyAbsent true None = false /\
-    norm cfg0 e [] false (wrapper WOneOf r TyAbsent true [] None None None o_none) name
+    norm cfg0 e [] false (wrapper WOneOf r TyAbsent true [] None [] None None o_none) name
       = TUnion name [TModel (sub_name name 0) [82]; TLeaf LNone (sub_name name 1) None] None /\
-    norm cfg0 e [] false (wrapper WAllOf r TyAbsent true [] None None None o_none) name
+    norm cfg0 e [] false (wrapper WAllOf r TyAbsent true [] None [] None None o_none) name
       = TUnion name [TLeaf LNone (sub_name name 0) None; TModel (sub_name name 1) [82]] None.
 Proof. exact wrapper_nullable_refuted. Qed.
 Print Assumptions C17_wrapper_nullable_refuted.
 
 Theorem C17_wrapper_not_congruent_refuted :
   exists e r name,
-    norm cfg0 e [] false (SSch TyAbsent false [] [wrapper WAllOf r TyAbsent false [] None None None o_none] [] [] None None None o_none) name
+    norm cfg0 e [] false (SSch TyAbsent false [] [wrapper WAllOf r TyAbsent false [] None [] None None o_none] [] [] None [] None None o_none) name
       = TUnion name [TModel (sub_name name 0) [82]] None /\
-    norm cfg0 e [] false (SSch TyAbsent false [] [SRef r] [] [] None None None o_none) name = TModel name [82].
+    norm cfg0 e [] false (SSch TyAbsent false [] [SRef r] [] [] None [] None None o_none) name = TModel name [82].
 Proof. exact wrapper_not_congruent_refuted. Qed.
 Print Assumptions C17_wrapper_not_congruent_refuted.
+
+(* tuple arrays (prefixItems + items) and every other use of items: each sub-schema may be written in any equivalent notation
+   independently of its siblings; the builder never compares sub-schemas with each other (equal members are kept) *)
+Theorem C17_items_congruence : forall c e parent top ty nl en any one all items items' pfx pfx' fmt d o name,
+  Forall2 (equiv c e parent) pfx pfx' -> oequiv c e parent items items' ->
+  norm c e parent top (SSch ty nl en any one all items pfx fmt d o) name
+  = norm c e parent top (SSch ty nl en any one all items' pfx' fmt d o) name.
+Proof. exact items_congruence. Qed.
+Print Assumptions C17_items_congruence.
+
+Theorem C17_union_members_congruence : forall c e parent ty en any any' one one' all items pfx fmt d o name,
+  Forall2 (equiv c e parent) any any' -> Forall2 (equiv c e parent) one one' ->
+  length (all ++ any ++ one) <> 1%nat ->
+  norm c e parent false (SSch ty false en any one all items pfx fmt d o) name
+  = norm c e parent false (SSch ty false en any' one' all items pfx fmt d o) name.
+Proof. exact union_members_congruence. Qed.
+Print Assumptions C17_union_members_congruence.
 
 (* exclusiveMinimum / exclusiveMaximum: the 3.0 boolean form == the 3.1 numeric form; running the validator twice changes nothing *)
 Theorem C17_excl_bool_numeric_equal : forall m, hx {| b_lim := Some m; b_excl := XBool true |} = hx {| b_lim := None; b_excl := XNum m |}.
